@@ -1,0 +1,8 @@
+//go:build !verif
+
+package sync
+
+import rand "math/rand/v2"
+
+// jitterInt64N draws the timer jitter (a seam for the deterministic simulator, build tag "verif").
+func jitterInt64N(n int64) int64 { return rand.Int64N(n) }
